@@ -59,6 +59,9 @@ pub struct RefState {
     pub ndirs: usize,
     pub dir_budget: usize,
     next_buffer: usize,
+    /// buffers of fetched gradients: a gradient slot (possibly of several arrays) may hold them too,
+    /// so ownership of these buffers is not predicted
+    pub grad_buffers: Vec<usize>,
 }
 
 pub fn is_exact_value(v: f64) -> bool {
@@ -68,7 +71,7 @@ pub fn is_exact_value(v: f64) -> bool {
 
 impl RefState {
     pub fn new(dir_budget: usize) -> RefState {
-        RefState { nodes: Vec::new(), handles: Vec::new(), ndirs: 0, dir_budget, next_buffer: 0 }
+        RefState { nodes: Vec::new(), handles: Vec::new(), ndirs: 0, dir_budget, next_buffer: 0, grad_buffers: vec![] }
     }
     pub fn handle(&self, h: usize) -> &Handle {
         self.handles[h].as_ref().expect("dead handle")
@@ -100,6 +103,10 @@ impl RefState {
         });
         self.nodes.push(Node { t, dir0, edges, op, grad: GradSlot::None, buffer, exact });
         self.nodes.len() - 1
+    }
+    fn next_buffer_bump(&mut self, n: usize) {
+        self.next_buffer += 1;
+        self.nodes[n].buffer = self.next_buffer;
     }
     pub fn new_leaf(&mut self, dims: &[usize], vals: &[f64], tracked: bool) -> usize {
         let exact = vals.iter().all(|v| is_exact_value(*v));
@@ -345,6 +352,8 @@ impl RefState {
                     x.vm = x.vm.max(*mm);
                 }
                 let n = self.push_node(t, vec![], None, None, exact, false);
+                let b = self.nodes[n].buffer;
+                self.grad_buffers.push(b);
                 self.handles.push(Some(Handle { node: n, tracked: false, keep: false }));
                 Some(self.handles.len() - 1)
             }
@@ -401,6 +410,9 @@ impl RefState {
     /// handle on a node with that buffer and no alive node records a node with that buffer as operand.
     pub fn sole_owner(&self, h: usize) -> bool {
         let buf = self.node_of(h).buffer;
+        if self.grad_buffers.contains(&buf) {
+            return false;
+        }
         let holders = self.handles.iter().flatten().filter(|x| self.nodes[x.node].buffer == buf).count();
         if holders != 1 {
             return false;
@@ -450,6 +462,11 @@ impl RefState {
             Step::ClearGrad { h, .. } => self.clear_grad(*h),
             Step::Update { lr, params } => {
                 self.update(*lr, params);
+            }
+            Step::ProbeSole { h } => {
+                // the array is rebuilt with a buffer of its own
+                let n = self.handle(*h).node;
+                self.next_buffer_bump(n);
             }
         }
         Ok(())
